@@ -159,7 +159,7 @@ def Ent.realKey (f : Fmt) (c : Array Nat) (e : Ent) : List Nat :=
   match f with
   | .po =>
     match poCreate c e.entry.s with
-    | some p => poEval c p.msgid ++ [0] ++ (match p.msgctxt with | some fr => poEval c fr | none => [1])
+    | some p => poEvalT c p.msgid ++ [0] ++ (match p.msgctxt with | some fr => poEvalT c fr | none => [1])
     | none => []
   | _ => pySlice c e.entry.ks e.entry.ke
 
